@@ -11,7 +11,8 @@ BOT = rm.BOT
 CONCRETE_ATOMS = (rm.evar(0), rm.evar(1), rm.svar(0), rm.svar(1), rm.sym(0), BOT)
 META_ATOMS = (rm.mv(0), rm.mv(1), rm.mv(2))
 CONSTRAINED = (rm.mv(0, E=(0,)), rm.mv(0, S=(0,)), rm.mv(0, P=(0,)), rm.mv(0, N=(0,)), rm.mv(1, E=(1,)),
-               rm.mv(0, P=(1,), N=(1,)), rm.mv(0, P=(0,), N=(0,)), rm.mv(1, S=(1,)), rm.mv(0, P=(0, 1)), rm.mv(0, N=(1,)))
+               rm.mv(0, P=(1,), N=(1,)), rm.mv(0, P=(0,), N=(0,)), rm.mv(1, S=(1,)), rm.mv(0, P=(0, 1)), rm.mv(0, N=(1,)),
+               rm.mv(0, E=(1, 0)), rm.mv(1, S=(1, 0)), rm.mv(1, P=(1, 0), N=(1, 0)))
 
 
 def _build(n: int, atoms: tuple, evs: tuple, svs: tuple, use_app: bool, use_mu: bool, substs: bool, cache: dict):
